@@ -1,5 +1,5 @@
 use super::json_escape::json_unescape;
-use super::put;
+use super::{put, to_u16, to_u32};
 use crate::error::{Error, InnerError};
 
 /// Consume whitespace in input by moving inposp forward.
@@ -158,7 +158,7 @@ pub(crate) fn read_tags_array(
     // NOTE: we cannot write any tag strings until after we have counted the tags.
     // (our tags structure is optimized for reading, not writing)
     let num_tags: usize = count_tags(input, *inposp)?;
-    put(output, 2, (num_tags as u16).to_ne_bytes().as_slice())?;
+    put(output, 2, to_u16(num_tags)?.to_ne_bytes().as_slice())?;
 
     // Case where we have no tags
     if num_tags == 0 {
@@ -179,11 +179,7 @@ pub(crate) fn read_tags_array(
     loop {
         // Write the offset of this tag
         let offset_slot = 4 + tag_num * 2;
-        put(
-            output,
-            offset_slot,
-            (outpos as u16).to_ne_bytes().as_slice(),
-        )?;
+        put(output, offset_slot, to_u16(outpos)?.to_ne_bytes().as_slice())?;
 
         // Read the tag (bumps inpos and outpos)
         read_tag(input, inposp, output, &mut outpos)?;
@@ -213,7 +209,7 @@ pub(crate) fn read_tags_array(
     }
 
     // Write length of tags section
-    put(output, 0, (outpos as u16).to_ne_bytes().as_slice())?;
+    put(output, 0, to_u16(outpos)?.to_ne_bytes().as_slice())?;
 
     Ok(outpos)
 }
@@ -277,7 +273,7 @@ pub(crate) fn read_tag(
         }
         let (inlen, outlen) = json_unescape(&input[*inposp..], &mut output[*outposp + 2..])?;
         // write the length before it
-        put(output, *outposp, (outlen as u16).to_ne_bytes().as_slice())?;
+        put(output, *outposp, to_u16(outlen)?.to_ne_bytes().as_slice())?;
         // bump the outposp past it
         *outposp += 2 + outlen;
         // bump the inpos past the string and the ending quote (which isn't counted in the len)
@@ -302,11 +298,7 @@ pub(crate) fn read_tag(
     }
 
     // Write the count of strings at the very start
-    put(
-        output,
-        countpos,
-        (num_strings as u16).to_ne_bytes().as_slice(),
-    )?;
+    put(output, countpos, to_u16(num_strings)?.to_ne_bytes().as_slice())?;
 
     Ok(())
 }
@@ -328,11 +320,11 @@ pub(crate) fn read_content(
     verify_char(input, b'"', inposp)?; // pass the end quote
 
     // Write content length
-    put(output, after_tags, (outlen as u32).to_ne_bytes().as_slice())?;
+    put(output, after_tags, to_u32(outlen)?.to_ne_bytes().as_slice())?;
 
     // Write event size
     let event_len = after_tags + 4 + outlen;
-    put(output, 0, (event_len as u32).to_ne_bytes().as_slice())?;
+    put(output, 0, to_u32(event_len)?.to_ne_bytes().as_slice())?;
 
     Ok(())
 }
